@@ -582,7 +582,7 @@ pub fn cmd_explore(opt: &HashMap<String, String>) -> i32 {
             })
             .collect();
         let r = if owned.is_empty() {
-            crate::instvar::explore(depth, ladder, threads, &iskips)
+            crate::instvar::explore(depth, ladder, if thorough { 6 } else { 5 }, threads, &iskips)
         } else {
             crate::instvar::InstResult { violations: owned, ..Default::default() }
         };
@@ -634,7 +634,7 @@ pub fn cmd_explore(opt: &HashMap<String, String>) -> i32 {
             })
             .collect();
         let r = if owned.is_empty() {
-            crate::instvar::explore_faults(depth, threads, &iskips)
+            crate::instvar::explore_faults(depth, if thorough { &[5, 9, 17, 20, 29, 33, 40, 57, 70, 113, 130][..] } else { &[9, 17, 20, 33, 70][..] }, threads, &iskips)
         } else {
             crate::instvar::InstResult { violations: owned, ..Default::default() }
         };
@@ -981,13 +981,13 @@ pub fn cmd_replay(opt: &HashMap<String, String>) -> i32 {
     }
     match (mode.as_str(), op) {
         ("instvar-faults", _) => {
-            let r = crate::instvar::explore_faults(2, 16, &[]);
+            let r = crate::instvar::explore_faults(2, &[9, 17, 20, 33, 70], 16, &[]);
             for x in r.violations {
                 viols.push((x.rule.to_string(), x.detail));
             }
         }
         ("instvar", _) => {
-            let r = crate::instvar::explore(3, 40, 16, &[]);
+            let r = crate::instvar::explore(3, 40, 5, 16, &[]);
             for x in r.violations {
                 if x.props & sel != 0 {
                     viols.push((x.rule.to_string(), x.detail));
